@@ -120,8 +120,10 @@ class Run:
             print(f"KNOWN-FINDING: property={self.pid} {key} -- {self.known_open[key].get('what', vs[0]['what'])} ({len(vs)} case(s) this run)")
         rc = 0
         replay_paths = []
+        rdir = os.path.join(VERIF, "replays", self.pid)
+        if not os.environ.get("VERIF_NOEVIDENCE"):
+            shutil.rmtree(rdir, ignore_errors=True)  # replays of earlier runs are stale
         if new:
-            rdir = os.path.join(VERIF, "replays", self.pid)
             os.makedirs(rdir, exist_ok=True)
             for key, vs in sorted(new.items()):
                 path = os.path.join(rdir, short_hash([key, vs[0]["detail"]]) + ".json")
